@@ -100,4 +100,167 @@ theorem fetchUnits_complete (w : World) : ∀ {path : List String} {cur : String
           exact ihkids k hk ku hfk hi n (by omega)
         · rfl
 
+/-- what it takes for a component to be fetched, without fuel -/
+inductive COk (w : World) : List String → String → CompE → Prop
+  | noModel {path : List String} {cur : String} {c : CompE} :
+      (∀ us cs, w.lookup cur ≠ some (.model us cs)) → COk w path cur c
+  | noImports {path : List String} {cur : String} {c : CompE} {us : List UnitsE} {cs : List CompE} :
+      w.lookup cur = some (.model us cs) → reqImp cs.length cs c = false → COk w path cur c
+  | localKids {path : List String} {cur : String} {c : CompE} {us : List UnitsE} {cs : List CompE} :
+      w.lookup cur = some (.model us cs) → c.imp = none →
+      (∀ k ∈ c.kids, ∀ kc, findC cs k = some kc → COk w path cur kc) → COk w path cur c
+  | imported {path : List String} {cur : String} {c sc : CompE} {url ref : String} {us us' : List UnitsE} {cs cs' : List CompE} :
+      w.lookup cur = some (.model us cs) → c.imp = some (url, ref) → w.lookup url = some (.model us' cs') → ¬ url ∈ path →
+      findC cs' ref = some sc → COk w (path ++ [cur]) url sc →
+      (∀ k ∈ sc.kids, ∀ kc, findC cs' k = some kc → COk w (path ++ [cur]) url kc) →
+      (∀ un ∈ (subUnits cs'.length cs' sc).eraseDups, ∃ uu, findU us' un = some uu ∧ UOk w (path ++ [cur]) url uu) →
+      COk w path cur c
+
+theorem reqImp_of_imp {cs : List CompE} {c : CompE} {x : String × String} (h : c.imp = some x) : reqImp cs.length cs c = true := by
+  cases hn : cs.length <;> simp [reqImp, h]
+
+/-- soundness for components -/
+theorem fetchComponent_sound : ∀ (n : Nat) (w : World) (path : List String) (cur : String) (c : CompE),
+    fetchComponent n w path cur c = .ok → COk w path cur c := by
+  intro n
+  induction n with
+  | zero => intro w path cur c h; simp [fetchComponent] at h
+  | succ n ih =>
+    intro w path cur c h
+    unfold fetchComponent at h
+    cases hcur : w.lookup cur with
+    | none => exact .noModel (by intro us cs; simp [hcur])
+    | some fc0 =>
+      cases fc0 with
+      | missing => exact .noModel (by intro us cs; simp [hcur])
+      | notXml => exact .noModel (by intro us cs; simp [hcur])
+      | model us cs =>
+        simp only [hcur] at h
+        by_cases hreq : reqImp cs.length cs c = true
+        · simp only [hreq, Bool.not_true, Bool.false_eq_true, if_false] at h
+          cases himp : c.imp with
+          | none =>
+            simp only [himp] at h
+            have h' := (allR_ok_iff _ _).mp h
+            refine .localKids hcur himp ?_
+            intro k hk kc hfk
+            have := h' k hk
+            simp only [hfk] at this
+            exact ih w path cur kc this
+          | some ur =>
+            obtain ⟨url, ref⟩ := ur
+            simp only [himp] at h
+            cases hlk : w.lookup url with
+            | none => simp [hlk] at h
+            | some fc =>
+              cases fc with
+              | missing => simp [hlk] at h
+              | notXml => simp [hlk] at h
+              | model us' cs' =>
+                simp only [hlk] at h
+                split at h
+                · cases h
+                · rename_i hpath
+                  cases hf : findC cs' ref with
+                  | none => simp [hf] at h
+                  | some sc =>
+                    simp only [hf] at h
+                    obtain ⟨h1, h23⟩ := seqR_ok_iff.mp h
+                    obtain ⟨h2, h3⟩ := seqR_ok_iff.mp h23
+                    have h2' := (allR_ok_iff _ _).mp h2
+                    have h3' := (allR_ok_iff _ _).mp h3
+                    refine .imported hcur himp hlk (by simpa using hpath) hf (ih w _ url sc h1) ?_ ?_
+                    · intro k hk kc hfk
+                      have := h2' k hk
+                      simp only [hfk] at this
+                      exact ih w _ url kc this
+                    · intro un hun
+                      have := h3' un hun
+                      cases hfu : findU us' un with
+                      | none => simp [hfu] at this
+                      | some uu =>
+                        simp only [hfu] at this
+                        exact ⟨uu, rfl, fetchUnits_sound n w _ url uu this⟩
+        · have hreq' : reqImp cs.length cs c = false := by simpa using hreq
+          exact .noImports hcur hreq'
+
+/-- completeness for components: a derivation is found with any fuel above the measure (the encapsulation hierarchy
+    of every file being a tree: `Ranked`) -/
+theorem fetchComponent_complete (w : World) (h : String × String → Nat) (H : Nat) (hr : Ranked w h H) :
+    ∀ {path : List String} {cur : String} {c : CompE}, COk w path cur c → InFileC w cur c →
+    ∀ n, muF w path cur * (H + 1) + h (cur, c.name) + (unitPairs w).length < n → fetchComponent n w path cur c = .ok := by
+  intro path cur c hc
+  induction hc with
+  | @noModel path cur c hno =>
+    intro _ n hn
+    cases n with
+    | zero => omega
+    | succ n =>
+      unfold fetchComponent
+      cases hcur : w.lookup cur with
+      | none => rfl
+      | some fc =>
+        cases fc with
+        | missing => rfl
+        | notXml => rfl
+        | model us cs => exact absurd hcur (hno us cs)
+  | @noImports path cur c us cs hcur hreq =>
+    intro _ n hn
+    cases n with
+    | zero => omega
+    | succ n => unfold fetchComponent; simp [hcur, hreq]
+  | @localKids path cur c us cs hcur himp _ ih =>
+    intro hin n hn
+    cases n with
+    | zero => omega
+    | succ n =>
+      obtain ⟨us0, cs0, hlk0, hcmem⟩ := hin
+      rw [hcur] at hlk0
+      cases hlk0
+      unfold fetchComponent
+      simp only [hcur]
+      split
+      · rfl
+      · simp only [himp]
+        refine (allR_ok_iff _ _).mpr ?_
+        intro k hk
+        cases hfk : findC cs k with
+        | none => rfl
+        | some kc =>
+          simp only []
+          have hlt := hr.2 cur us cs c k kc hcur hcmem hk hfk
+          exact ih k hk kc hfk ⟨us, cs, hcur, findC_mem hfk⟩ n (by omega)
+  | @imported path cur c sc url ref us us' cs cs' hcur himp hlk hpath hf _ _ hunits ihsc ihkids =>
+    intro _ n hn
+    cases n with
+    | zero => omega
+    | succ n =>
+      have hdec := muF_import w path cur url (lookup_file hlk) (by simpa using hpath)
+      have hH : ∀ p, h p ≤ H := hr.1
+      have hmul : muF w (path ++ [cur]) url * (H + 1) + (H + 1) ≤ muF w path cur * (H + 1) := by
+        have : muF w (path ++ [cur]) url + 1 ≤ muF w path cur := hdec
+        calc muF w (path ++ [cur]) url * (H + 1) + (H + 1) = (muF w (path ++ [cur]) url + 1) * (H + 1) := by
+              rw [Nat.add_mul, Nat.one_mul]
+          _ ≤ muF w path cur * (H + 1) := Nat.mul_le_mul_right _ this
+      unfold fetchComponent
+      simp only [hcur, reqImp_of_imp himp, Bool.not_true, Bool.false_eq_true, if_false, himp, hlk]
+      have hp : path.contains url = false := by simpa using hpath
+      simp only [hp, Bool.false_eq_true, if_false, hf]
+      refine seqR_ok_iff.mpr ⟨?_, seqR_ok_iff.mpr ⟨(allR_ok_iff _ _).mpr ?_, (allR_ok_iff _ _).mpr ?_⟩⟩
+      · have := hH (url, sc.name)
+        exact ihsc ⟨us', cs', hlk, findC_mem hf⟩ n (by omega)
+      · intro k hk
+        cases hfk : findC cs' k with
+        | none => rfl
+        | some kc =>
+          simp only []
+          have := hH (url, kc.name)
+          exact ihkids k hk kc hfk ⟨us', cs', hlk, findC_mem hfk⟩ n (by omega)
+      · intro un hun
+        obtain ⟨uu, hfu, hok⟩ := hunits un hun
+        simp only [hfu]
+        have h1 := mu_nil_le w (path ++ [cur]) url
+        have h2 : muF w (path ++ [cur]) url ≤ muF w (path ++ [cur]) url * (H + 1) := Nat.le_mul_of_pos_right _ (by omega)
+        exact fetchUnits_complete w hok n (by omega)
+
 end Cellml.Import
